@@ -273,6 +273,21 @@ def build_proofs(pid):
     return res
 
 
+def coqchk(pid):
+    """Thorough tier: re-check the compiled development with the independent checker and list the axioms of
+    everything Props.vo depends on.  returns (ok, summary_text)"""
+    d = os.path.join(COQ, pid)
+    try:
+        rc, out = sh("timeout 1500 coqchk -silent -o %s %s.Props 2>&1" % (coq_flags(pid), pid), cwd=d, timeout=1600)
+    except subprocess.TimeoutExpired:
+        return False, "coqchk timed out"
+    m = re.search(r"CONTEXT SUMMARY.*", out, flags=re.S)
+    summ = m.group(0) if m else out[-1500:]
+    ok = rc == 0 and all(re.search(re.escape(k) + r"\s*<none>", summ) for k in
+                         ("* Axioms:", "type-in-type:", "unsafe (co)fixpoints:", "positivity is assumed:"))
+    return ok, summ.strip()
+
+
 _EVAL_RE = re.compile(r"=\s*(\[[^\]]*\])\s*:\s*list nat", re.S)
 
 
@@ -423,6 +438,13 @@ def run_check(mod, tier, seed, replay=None):
     cov["proof_build_s"] = round(time.time() - t0, 1)
     if not pr["ok"]:
         tie_breaks.append({"kind": "proof", "what": "; ".join(pr["failed"]), "log": pr["log"][-1500:]})
+    elif tier == "thorough" and replay is None and os.environ.get("VERIF_COQCHK", "1") == "1":
+        tc = time.time()
+        ok, summ = coqchk(pid)
+        cov["coqchk"] = {"ok": ok, "summary": summ[-1200:], "wall_s": round(time.time() - tc, 1)}
+        if not ok:
+            tie_breaks.append({"kind": "proof", "what": "coqchk -o does not accept the compiled development "
+                               "axiom-free: " + summ[-600:]})
 
     # 3/4. correspondence and oracle ---------------------------------------------------------
     samples = []
@@ -580,6 +602,7 @@ def run_check(mod, tier, seed, replay=None):
             "trusted_base": tb_list,
             "theorems": cov["theorems"],
             "print_assumptions": pr["assumptions"],
+            "coqchk": cov.get("coqchk", "not run in the quick tier (thorough tier runs `coqchk -silent -o ... Cxx.Props`)"),
             "evaluations": total_eval,
             "distinct_nontrivial": total_nontrivial,
             "traces_validated_against_impl": total_validated,
